@@ -57,7 +57,20 @@ type listener struct {
 func (l *listener) Accept() (net.Conn, error) {
 	select {
 	case c := <-l.acceptCh:
+		// Take the reference under connLock: Close drops the listener's own
+		// reference only after it has held this lock, so the socket cannot be
+		// closed between receiving the connection and counting it.
+		l.connLock.Lock()
+		if isAccepting, ok := l.accepting.Load().(bool); !isAccepting || !ok {
+			// The listener was closed in the meantime: discard like Close does.
+			close(c.doneCh)
+			delete(l.conns, c.rAddr.String())
+			l.connLock.Unlock()
+
+			return nil, ErrClosedListener
+		}
 		l.connWG.Add(1)
+		l.connLock.Unlock()
 
 		return c, nil
 
